@@ -1605,7 +1605,7 @@ theorem getMsgSig_same_classes (m m' : PSIPMsg) (b b' : Buf) (hr : m.request = t
     (htag : (getStrCharsSig tag' 0 0).1 = (getStrCharsSig tag 0 0).1)
     (hfirsts : (sigFirsts [] (m'.hl.hdrs.toList.map (hdrKey (b'.extract 0 m'.bufLen)))).map scKeyClass =
                (sigFirsts [] (m.hl.hdrs.toList.map (hdrKey (b.extract 0 m.bufLen)))).map scKeyClass) :
-    (getMsgSig m' b').1 = (getMsgSig m b).1 := by
+    (getMsgSigCore m' b').1 = (getMsgSigCore m b).1 := by
   rw [getMsgSig_request m b hr cid tag hc ht, getMsgSig_request m' b' hr' cid' tag' hc' ht']
   show (msgSigLoop _ _ _ _).1.sig = (msgSigLoop _ _ _ _).1.sig
   rw [(msgSigLoop_view _ _ _ _ cid tag hcov).1, (msgSigLoop_view _ _ _ _ cid' tag' hcov').1]
@@ -1723,7 +1723,7 @@ def scExM2 : PSIPMsg := (parseSIPMsg scExMsg2 0 (({} : PSIPMsg).init 0 (some (Ar
 
 /-- non-vacuity of `getMsgSig_same_classes`: the two parsed messages meet its hypotheses, hence have the same
     signature although Call-ID, From-tag, branch, Via host, Subject and CSeq differ -/
-example : (getMsgSig scExM2 scExMsg2).1 = (getMsgSig scExM1 scExMsg1).1 :=
+example : (getMsgSigCore scExM2 scExMsg2).1 = (getMsgSigCore scExM1 scExMsg1).1 :=
   getMsgSig_same_classes scExM1 scExM2 scExMsg1 scExMsg2 (by decide +kernel) (by decide +kernel)
     "x@1.2.3.4".toUTF8.data "a-1".toUTF8.data "y@5.6.7.8".toUTF8.data "b-2".toUTF8.data
     (by decide +kernel) (by decide +kernel) (by decide +kernel) (by decide +kernel)
